@@ -169,6 +169,32 @@ def avail_ge_wlen (L, node):
       if _is_avail(L, a) and norm(c) == L.wlen and op in ('>=',): return True
   return False
 
+def avail_ge_wlen_paths (repo, func, L, node, limit=600):
+  """path-sensitive version of avail_ge_wlen: on every feasible path (constant propagation prunes correlated flags such as
+  `problem is None`) from the loop head to `node`, some branch taken proves len(BUF) - CUR >= WLEN.
+  -> (True, None) | (False, offending path) | (None, None) when the enumeration was cut off"""
+  al = _aliases(L)
+  tgt = {('len(%s)' % L.buf): 1, L.wlen: -1}
+  if L.cur: tgt[L.cur] = -1
+  n_paths = 0
+  try:
+    for p_, e_ in q.paths_under(repo, func.module, L.g, q.Env(), L.head, [node, L.head, L.after, L.g.exit, L.g.raise_exit], func.cls, limit=limit, track_start=True):
+      if not p_ or p_[-1] is not node: continue
+      n_paths += 1
+      ok = False
+      for b in p_:
+        if b.kind != 'branch' or isinstance(b.label[0], (ast.For, ast.AsyncFor)): continue
+        for (l, o, r) in q.facts_of(b.label[0], b.label[1]):
+          if r is None: continue
+          if q.implies_ge0(q.fact_as_ge0(l, o, r, al), (tgt, 0)): ok = True
+          for (a, op, c) in ((l, o, r), (r, q.flip(o), l)):
+            if op is not None and _is_avail(L, a) and norm(c) == L.wlen and op in ('>=',): ok = True
+      if not ok: return False, [x.line for x in p_ if getattr(x, 'line', None)]
+  except Exception:
+    return None, None
+  if n_paths == 0 or n_paths >= limit: return None, None
+  return True, None
+
 def wlen_lower_bound_on_path (L, path):
   """lower bound on WLEN from the branch nodes of an explicit path"""
   best = None
